@@ -257,6 +257,11 @@ class ExprMixin:
             if isinstance(other, (ClassV, FuncV, ObjV, EnumMember, ParserV, ComposerV, ListV, DictV, ValidatorV,
                                   AttrFieldV)):
                 return name == 'is not'
+        if name in ('is', 'is not'):
+            # a python constant (bool, int, str, None) is never the same object as a class / singleton of a library
+            for x, y in ((a, b), (b, a)):
+                if is_const(x) and isinstance(y, ClassV):
+                    return name == 'is not'
         if name in ('==', '!=', 'is', 'is not'):
             if isinstance(a, (EnumMember, ClassV)) and isinstance(b, (EnumMember, ClassV)) and type(a) is type(b):
                 eq = (a == b)
